@@ -41,6 +41,10 @@ scpi_bool_t SCPI_Parse(scpi_t * context, char * data, int len) {
     int i;
     (void) context;
     pcalls++;
+    /* a message that does not end in a line terminator (flush) must be followed by a NUL: the number readers convert with
+     * strtol/strtod and stop only there.  (Messages ending in CR/LF need no NUL: conversion stops at the terminator; the
+     * library indeed leaves a stale byte behind a remainder it moved to the front.) */
+    if (len > 0 && data[len - 1] != '\n' && data[len - 1] != '\r') VASSERT(data[len] == 0, "C08 an unterminated message handed to the parser (zero-length call) is NUL-terminated in the buffer");
     for (i = 0; i < N + 1; i++) if (i < len && ploglen < LOGSZ) plog[ploglen++] = data[i];
     if (ploglen < LOGSZ) plog[ploglen++] = 0x01;
     return (vin.parse_result >> (pcalls & 7)) & 1 ? TRUE : FALSE;
